@@ -4,8 +4,9 @@ import json, glob, re
 thor = {}
 for f in glob.glob('/verif/sim/*.go'):
     s = open(f).read()
-    for m in re.finditer(r'ID:\s+"(C\d+)".*?Quick:\s+(\d+),\s+Thorough:\s+(\d+)', s, re.S):
-        thor[m.group(1)] = (int(m.group(2)), int(m.group(3)))
+    for m in re.finditer(r'ID:\s+"(C\d+)".*?Quick:\s+([^,\n]+),\s+Thorough:\s+([^,\n]+),', s, re.S):
+        env = {"c20Table": 3 * 4 * 256 * 256}
+        thor[m.group(1)] = (int(eval(m.group(2), {}, env)), int(eval(m.group(3), {}, env)))
 rows = []
 for f in sorted(glob.glob('/verif/evidence/C*.json')):
     e = json.load(open(f))
